@@ -101,6 +101,17 @@ pub fn install_panic_hook() {
     }));
 }
 
+/// When set (`--trace FILE`), every case is written to the file before it is evaluated, so that the
+/// driver can tell which input a process that died (stack overflow, abort, memory fault) was on.
+pub static TRACE: std::sync::OnceLock<String> = std::sync::OnceLock::new();
+
+pub fn trace_case<T: Serialize>(sub: &str, case: &T) {
+    if let Some(path) = TRACE.get() {
+        let v = json!({"sub": sub, "case": serde_json::to_value(case).unwrap_or(Value::Null)});
+        let _ = std::fs::write(path, serde_json::to_string(&v).unwrap_or_default());
+    }
+}
+
 /// Run `f`, turning a panic into `Err(message)` without printing it.
 pub fn quiet_catch<T>(f: impl FnOnce() -> T) -> Result<T, String> {
     QUIET.with(|q| q.set(q.get() + 1));
@@ -461,6 +472,7 @@ impl Ctx {
         // the closure is re-run during shrinking: counters stop at the first failure
         let this = std::cell::RefCell::new(&mut *self);
         let result = runner.run(&strat, |case| {
+            trace_case(sub, &case);
             let r = quiet_catch(|| check(&case));
             let r = match r {
                 Ok(r) => r,
@@ -557,6 +569,7 @@ impl Ctx {
         }
         self.subs.entry(sub.to_string()).or_default().exhaustive = true;
         for case in items {
+            trace_case(sub, &case);
             let r = quiet_catch(|| check(&case));
             let r = match r {
                 Ok(r) => r,
